@@ -36,6 +36,7 @@ fn prefix(rng: &mut Rng) -> (Vec<G>, bool) {
         2 => (vec![G::Eq(v(X), T::list(vec![v(Y), T::Int(10)])), G::Call(Rel::Member, vec![v(Y), ints(rng, 2, 2)])], false),
         3 => (vec![G::Loop(vec![vec![G::Call(Rel::Member, vec![v(X), ints(rng, 2, 0)])]])], true),
         4 => (vec![], false),
+        5 if rng.chance(1, 2) => (vec![G::Eq(v(X), T::pair(T::list(vec![T::Int(0), v(Y)]), T::Int(1))), G::Conde(vec![vec![G::Eq(v(Y), T::Int(1))], vec![G::Eq(v(Y), T::list(vec![T::Int(2)]))], vec![G::Succeed]])], false),
         5 => (vec![G::Eq(v(X), T::pair(v(Y), T::Int(1))), G::Conde(vec![vec![G::Eq(v(Y), T::Int(1))], vec![G::Eq(v(Y), T::Int(2))], vec![G::Succeed]])], false),
         6 => (vec![G::Call(Rel::Member, vec![v(X), ints(rng, 2, 0)]), G::Call(Rel::Member, vec![v(Y), ints(rng, 2, 0)])], false),
         7 => (vec![G::Eq(v(X), T::improper(vec![T::Int(0)], v(Y))), G::Conde(vec![vec![G::Eq(v(Y), T::Nil)], vec![G::Eq(v(Y), T::list(vec![T::Int(5)]))]])], false),
@@ -111,7 +112,7 @@ impl Check for C11 {
         vec![GenSpec { name: "project", quick: 6000, thorough: 300_000 }]
     }
     fn rule(&self) -> &'static str {
-        "Programs `|x, y| { prefix, project |x| (or |x, y|) { body } }` with two query variables. Prefixes make 1..n states reach the SAME project goal object: member over 2-4 values, conde of bindings (incl. x bound to a list holding y), x bound to a shared structured term ([y, 10], Pair(y, 1), [0 | y]) whose inner variable is bound differently per branch, two members (product of states), x unbound, and an infinite loop prefix (first 8 answers). Bodies of 1-4 goals use the projected value (q == x, q == [x | x], q != x, conde, nested project on y), half of them behind a multi-answer goal so that the rest of the body is suspended and resumed after other states have reached the project goal. Monitors: M-proj, built into every project body at its start and end: walk*(projected term) == walk*(original variable) in the state that runs the body; the answers equal the reference's (project = walk*) as multisets (soundness of a prefix for the infinite lane); the same Query value run twice gives the same answers; no panic. A compiled lane writes the same programs (without nested project) in surface syntax, compiles them against the current tree and compares the answers with the reference and with the API-built twin, so that the macro expansion of `project` is observed end to end. Distinct = distinct program text; non-trivial = the project goal was reached by at least 2 states."
+        "Programs `|x, y| { prefix, project |x| (or |x, y|) { body } }` with two query variables. Prefixes make 1..n states reach the SAME project goal object: member over 2-4 values, conde of bindings (incl. x bound to a list holding y), x bound to a shared structured term ([y, 10], Pair(y, 1), Pair([0, y], 1), [0 | y]) whose inner variable is bound differently per branch, two members (product of states), x unbound, and an infinite loop prefix (first 8 answers). Bodies of 1-4 goals use the projected value (q == x, q == [x | x], q != x, conde, nested project on y), half of them behind a multi-answer goal so that the rest of the body is suspended and resumed after other states have reached the project goal. Monitors: M-proj, built into every project body at its start and end: walk*(projected term) == walk*(original variable) in the state that runs the body; the answers equal the reference's (project = walk*) as multisets (soundness of a prefix for the infinite lane); the same Query value run twice gives the same answers; no panic. A compiled lane writes the same programs (without nested project) in surface syntax, compiles them against the current tree and compares the answers with the reference and with the API-built twin, so that the macro expansion of `project` is observed end to end. Distinct = distinct program text; non-trivial = the project goal was reached by at least 2 states."
     }
     fn assumptions(&self) -> Vec<String> {
         vec!["M-proj lives in the body that the harness hands to the real `project |..| { .. }` macro as a Rust-expression clause (1-3 projected variables)".into()]
